@@ -25,7 +25,7 @@ ASSUMPTIONS = ['held workers use a cooperative target, so thread workers can be 
 SHRINK = 'greedy'
 SHRINK_RUNS = 25
 TIME_BUDGET = {'quick': 170, 'thorough': 1700}
-REQUIRED = {'quick': {'check_after_death': 150, 'concurrent_check': 60, 'autoclose': 40, 'restart': 30, 'retention_checked': 100},
+REQUIRED = {'quick': {'check_after_death': 150, 'concurrent_check': 60, 'autoclose': 40, 'restart': 30, 'retention_checked': 100, 'create_during_active_children': 40},
             'thorough': {'check_after_death': 1500, 'concurrent_check': 600, 'autoclose': 400}}
 KINDS = ['thread', 'process', 'remote', 'p_thread', 'p_process', 'p_remote']
 
@@ -46,6 +46,7 @@ def strategy(tier):
         st.tuples(st.just('release'), st.integers(0, 20)), st.tuples(st.just('terminate'), st.integers(0, 20)),
         st.tuples(st.just('restart'), st.integers(0, 20)),
         st.tuples(st.just('check'), st.sampled_from([0, 0, 2, 3])), st.tuples(st.just('check'), st.sampled_from([0, 2])),
+        st.tuples(st.just('check_during_create')),
         st.tuples(st.just('autoclose'), st.lists(st.sampled_from(['thread', 'process', 'p_thread', 'p_process', 'p_remote']), min_size=1, max_size=3)),
         st.tuples(st.just('burst'), st.sampled_from(['thread', 'p_thread']), st.integers(5, 40 if tier == 'quick' else 300)),
     )
@@ -203,6 +204,40 @@ def run_case(case, ctx):
             elif what == 'check':
                 do_check(op[1], 'check')
                 log.append(['check', op[1]])
+            elif what == 'check_during_create':
+                # another thread creates a worker exactly while active_children() evaluates is_alive() of a registered worker
+                import vworkers
+                out.label('create_during_active_children')
+                ppath = os.path.join(ctx.scratch, IC.fresh_name(ctx, 'c19') + '.rel')
+                probe = bounded(vworkers.ProbeThreadWorker, 25, vtargets.hold_until, args=[ppath, 1])
+                workers.append({'w': probe, 'kind': 'thread', 'path': ppath, 'mode': 'hold'})
+                checker = threading.get_ident()
+                fired = {'n': 0}
+                created = {}
+                done = threading.Event()
+                npath = os.path.join(ctx.scratch, IC.fresh_name(ctx, 'c19') + '.rel')
+
+                def creator():
+                    try:
+                        created['w'] = IC.KINDS['thread'](vtargets.hold_until, args=[npath, 1])
+                    finally:
+                        done.set()
+
+                def hook(wk):
+                    if threading.get_ident() == checker and fired['n'] == 0:
+                        fired['n'] = 1
+                        threading.Thread(target=creator, daemon=True).start()
+                        done.wait(0.3)      # with a properly locked registry the creator cannot finish before we go on
+                vworkers.ProbeThreadWorker.HOOK[0] = hook
+                try:
+                    list(Worker.active_children())
+                finally:
+                    vworkers.ProbeThreadWorker.HOOK[0] = None
+                done.wait(10)
+                if 'w' in created:
+                    workers.append({'w': created['w'], 'kind': 'thread', 'path': npath, 'mode': 'hold'})
+                do_check(0, 'check_after_concurrent_create')
+                log.append(['check_during_create', fired['n']])
             elif what == 'autoclose':
                 out.label('autoclose')
                 inner = []
@@ -241,7 +276,7 @@ def run_case(case, ctx):
                 log.append(['autoclose', op[1]])
         # final check + retention
         do_check(0, 'final_check')
-        w = rec = cands = inner = None      # the harness' own references must not keep anything alive
+        w = rec = cands = inner = probe = created = hook = creator = None      # the harness' own references must not keep anything alive
         dropped = 0
         for rec in workers:
             if rec['w'] is None:
